@@ -407,8 +407,7 @@ class History:
               if r.get('failed'):
                 self.failed_refresh_times.append(refresh_start)
                 self.tags.append('fault:refresh')
-                self.emit('ghfail')
-                await self.end_block()
+                self.ghfail_pending = True      # dumped once the exception has passed through `_update` (which restores the flag)
               else:
                 listing = r.get('listing', [])
                 parts = [f"gh {r.get('target', 0)} {len(listing)}"]
@@ -542,6 +541,16 @@ class History:
                 await f(self.db, self.bc, gh, False)
             except (AssertionError, FaultInjected):
                 pass      # what the webhook handler / update_loop see (logged, 500); the flags stay as the aborted pass left them
+            if getattr(self, 'ghfail_pending', False):
+                self.ghfail_pending = False
+                self.emit('ghfail')
+                # entry points that were called while the failed refresh was in flight only set their flags (`updating` was True):
+                # perform them now under the same condition
+                wb.updating = True
+                try:
+                    await self.end_block()
+                finally:
+                    wb.updating = False
             if not nested:
                 self.mid = []
         else:
